@@ -497,11 +497,18 @@ func (r *zzC06Runner) table(v *zzC06Vec, idx int, qs []zzC06Query) {
 			got = <-res
 		}
 
+		hung := false
 		for i, q := range qs {
 			want := zzC06Wanted(v, q)
 			nev++
 			if fin && zzC06Admissible(want, &got[i]) {
 				continue
+			}
+
+			stop := false
+			r.count(func() { stop = r.stop })
+			if stop {
+				break
 			}
 
 			// Reproduce alone, on a fresh filter, with a long bound.
@@ -512,10 +519,13 @@ func (r *zzC06Runner) table(v *zzC06Vec, idx int, qs []zzC06Query) {
 			}
 			switch {
 			case !fin2:
+				// Confirmed non-termination.  The goroutine keeps spinning:
+				// leave this table, and stop the replay after the second one.
 				rec["kind"], rec["got"] = "hang", "no result within 20s"
+				hung = true
 				r.count(func() {
 					r.hangs++
-					r.stop = r.stop || r.hangs >= 3
+					r.stop = r.stop || r.hangs >= 2
 				})
 			case zzC06Admissible(want, &g2):
 				if !fin {
@@ -532,6 +542,13 @@ func (r *zzC06Runner) table(v *zzC06Vec, idx int, qs []zzC06Query) {
 			}
 
 			r.put(rec)
+			if hung {
+				break
+			}
+		}
+
+		if hung {
+			break
 		}
 	}
 
@@ -777,7 +794,7 @@ func TestZZVerifC06Trace(t *testing.T) {
 			q.spell = rng.Intn(3)
 		}
 
-		obs := make([]zzC06BObs, len(qs))
+		var obs []zzC06BObs
 		res := make(chan []zzC06BObs, 1)
 		run := func(qs []query, bound time.Duration) (out []zzC06BObs, fin bool) {
 			fin = zzC06Watch(bound, func() {
@@ -811,15 +828,24 @@ func TestZZVerifC06Trace(t *testing.T) {
 		var fin bool
 		if obs, fin = run(qs, 5*time.Second); !fin {
 			// Query by query with the long bound.
-			obs = make([]zzC06BObs, len(qs))
+			// Query by query with the long bound; the trace ends at the first
+			// confirmed non-termination.
+			obs = []zzC06BObs{}
 			for i := range qs {
 				one, ok := run(qs[i:i+1], 20*time.Second)
 				if ok {
-					obs[i] = one[0]
-				} else {
-					hangs++
-					obs[i] = zzC06BObs{H: qs[i].h, QT: qs[i].qt, R: "hang", Canon: []string{}, IPs: []string{}}
+					obs = append(obs, one[0])
+
+					continue
 				}
+
+				hangs = 3
+				name := zzC06Spell(zzC06Name(qs[i].h), qs[i].spell)
+				obs = append(obs, zzC06BObs{
+					H: qs[i].h, QT: qs[i].qt, R: "hang", Canon: []string{}, IPs: []string{}, Query: name,
+				})
+
+				break
 			}
 		}
 
